@@ -195,6 +195,27 @@ class Folder:
             cd = codec_of(c)
             if cd and cd[1] == "decode_arg":
                 raise Unfoldable("nested decode_arg in an expression that is not a statement-level definition at %s" % e.get("loc"))
+            # a free helper that is handed the size cache and returns what its single push_back returns (the 'clamp and cache the
+            # length' lines extracted into a function): the call is that push, with the helper's parameters bound to the arguments
+            if k == "CallExpr" and self.cachep is not None and any(var_ref(strip(a_, casts=True)) == self.cachep for a_ in e.get("args") or []):
+                hs = [h for h in (self.facts.by_name.get(c) or self.facts.by_short.get(sc) or []) if h.config == self.fn.config] if self.facts is not None else []
+                if hs:
+                    h = hs[0]
+                    pb = [x for x in h.walk() if isnode(x) and x.get("k") == "CXXMemberCallExpr" and re.search(r"InlinedVector::push_back$", short(x.get("callee") or ""))]
+                    rets = [x for x in h.walk() if isnode(x) and x.get("k") == "ReturnStmt"]
+                    ps = h.rec.get("params") or []
+                    if len(pb) == 1 and len(rets) == 1 and any(y is pb[0] for y in walk(rets[0])) and len(ps) == len(e.get("args") or []):
+                        saved = self.env
+                        self.env = {p_["did"]: self.sym(a_) for p_, a_ in zip(ps, e["args"])}
+                        try:
+                            x = self.sym(pb[0]["args"][0])
+                        finally:
+                            self.env = saved
+                        if e["id"] not in self.push_ids:
+                            self.push_ids[e["id"]] = len(self.pushes)
+                            self.pushes.append(x)
+                        return ("push", self.push_ids[e["id"]], x)
+                raise Unfoldable("the size cache is handed to %s, whose effect on it is not a single returned push_back (%s)" % (sc, e.get("loc")))
         return ("unk", k)
 
     def _mentions_runtime(self, e):
